@@ -164,6 +164,10 @@ func renderHelper(s *Summary, c *renderCase, v any) {
 		if retErr == nil && len(ctxErrs) == 0 {
 			s.mismatch(desc("error", "the value cannot be encoded, but neither Context.Errors nor the returned error reports it"), c)
 		}
+		if ct := w.Header().Get("Content-Type"); c.Preset && ct != "preset/type" {
+			// a Content-Type the caller has set is the caller's, also when the encoder gives up
+			s.mismatch(desc("content-type", fmt.Sprintf("the value cannot be encoded; afterwards the Content-Type set by the caller has become %q", ct)), c)
+		}
 		return
 	}
 	if retErr != nil || len(ctxErrs) > 0 {
